@@ -69,6 +69,7 @@ bool drv_resume_spb(thread_pool *p, suspend_point<bool> *sp) { return p->resume(
 // ---- co_await pool(awaitable): enqueue_awaiter over a future<int>
 int drv_pool_call(thread_pool *p, future<int> *f) { auto aw = (*p)(*f); return aw.await_ready() ? 1 : 0; }
 bool drv_pool_call_suspend(thread_pool *p, future<int> *f, std::coroutine_handle<> h) { auto aw = (*p)(*f); return aw.await_suspend(h); }
+int drv_pool_call_resume(thread_pool *p, future<int> *f) { auto aw = (*p)(*f); return aw.await_resume(); }
 // ---- function<void()> machinery on its own (move / call / destroy / empty call)
 void drv_fn_move(q_item *out, q_item *src) { new(out) q_item(std::move(*src)); }
 void drv_fn_move_assign(q_item *a, q_item *b) { *a = std::move(*b); }
